@@ -122,6 +122,8 @@ def hasMetaChar14 (s : String) : Bool := s.toList.any (fun c => c == '"' || c ==
 /-- the property on one admitted Experiment: `out` = impl line (incl. the part after `##`) -/
 def oracleLineC14 (toks out : List String) : String :=
   if out.head? == some "panic" then "fail validation-crashed" else
+  -- the same object through the real admission handlers (CREATE, then the original manifest re-applied as an UPDATE)
+  if let some t := out.find? (·.startsWith "WEBHOOK=") then s!"fail admission-handlers-{(t.drop 8).toString}" else
   match toks with
   | "validate" :: r =>
     match P.run (do let e ← pExp14; let b ← pBattery14; pure (e, b)) r with
